@@ -96,7 +96,8 @@ def replay_case(o):
 
 
 def search_cases(o, seed):
-    return [{"prop": PROP, "kind": "strings", "inputs": {"seed": seed}}]
+    return [{"prop": PROP, "kind": "strings", "inputs": {"seed": seed}}] + \
+        [{"prop": PROP, "kind": "zone_sweep", "inputs": {"zone": z, "dates": "transitions"}} for z in ZONES_Q[1:]]
 
 
 ZONES_Q = ["UTC", "Asia/Jerusalem", "America/New_York", "Australia/Lord_Howe"]
@@ -110,5 +111,7 @@ def native_cases(tier, seed):
     zones = ZONES_Q if tier == "quick" else ZONES_T
     cases = [{"prop": PROP, "kind": "strings", "inputs": {"seed": seed}}]
     for z in zones:
-        cases.append({"prop": PROP, "kind": "zone_sweep", "inputs": {"zone": z, "dates": "few" if tier == "quick" else "transitions"}})
+        # quick: the days around every DST transition for the two zones with the most unusual rules, a few fixed dates elsewhere
+        tr = tier != "quick" or z in ("America/New_York", "Australia/Lord_Howe")
+        cases.append({"prop": PROP, "kind": "zone_sweep", "inputs": {"zone": z, "dates": "transitions" if tr else "few"}})
     return cases
